@@ -1,6 +1,8 @@
 package builder
 
 import (
+	"go/token"
+
 	"github.com/dave/jennifer/jen"
 	"github.com/jmattheis/goverter/xtype"
 )
@@ -152,6 +154,13 @@ func (*TargetPointer) Build(gen Generator, ctx *MethodContext, sourceID *xtype.J
 			TargetID:   "*",
 			TargetType: target.PointerInner.String,
 		})
+	}
+
+	// A source expression that was handed through unconverted (skipCopySameType) must not be
+	// referenced, the pointer would alias the memory of the source. A plain identifier is a
+	// parameter or a loop variable and thereby already a copy.
+	if id == sourceID && !token.IsIdentifier(id.Code.GoString()) {
+		id = xtype.OtherID(id.Code)
 	}
 
 	pstmt, nextID := id.Pointer(target.PointerInner, ctx.Name)
